@@ -173,7 +173,7 @@ pub fn run(cfg: &Cfg) -> Report {
 
     // 3D universe
     let mut uni = three_d::universe(cfg.tier.pick(3, 4));
-    uni.extend(three_d::sampled_larger(seed, &[5], cfg.tier.pick(1, 4), cfg.tier.pick(150, 1500)));
+    uni.extend(three_d::sampled_larger(seed, cfg.tier.pick(&[5], &[5, 6]), cfg.tier.pick(1, 3), cfg.tier.pick(300, 8000)));
     let ctx = par_items(cfg, &uni, |ctx, k, m| {
         let mut rng = Rng::stream(seed, 0x15_8000 + k as u64);
         judge_3d(ctx, cfg, m, &mut rng, false, cfg.tier.pick(3, 4));
